@@ -38,6 +38,11 @@ _counter = [0]
 T_UNITWS = "C09-unit-whitespace"     # known finding: units with white space cannot be stored
 T_BRACES = "C09-label-braces"        # optional stream (VERIF_C09_BRACES=1): the reader strips { and }
 
+# finding candidates reported to the maintainer; armed with VERIF_C09_CANDIDATES=1 (or once listed as known)
+T_STALE = "C09-stale-sidecar"        # save with subregions, then save without to the same name: old side-car is read
+T_COMPLEX = "C09-complex-imag-dropped"   # complex field: bin4/bin8 silently store the real parts only
+ARMED = os.environ.get("VERIF_C09_CANDIDATES", "0") != "0"
+
 CHECK = {4: 1234567.0, 8: 123456789012345.0}
 REPS = ["bin8", "bin4", "txt"]
 F32_INF = F(2) ** 128
@@ -490,6 +495,56 @@ def gen_field_dtype(rng, tier, dt):
     return fc
 
 
+def gen_state(rng, tier, i):
+    scen = ["inplace", "meshrot", "repeat", "stems", "stale", "inplace"][i % 6]
+    rep_ = REPS[(i // 6) % 3]
+    if scen == "inplace":
+        exact = rng.random() < 0.6
+        want_rot = rng.random() < 0.4
+        f = gen_field(rng, tier, exact=exact, subs=(exact and rng.random() < 0.5), maxn=3,
+                      nv=(rng.choice([1, 3]) if want_rot else None), vcls=rng.choice(["index", "small", "full"]))
+        if want_rot:
+            f["vdims"] = None
+        s_ = 1.0 if exact else max(abs(unhex(x)) for x in f["p1"] + f["p2"]) or 1.0
+        ops = []
+        for _ in range(rng.randint(1, 3)):
+            k = rng.choice(["translate", "scale", "rtranslate", "rscale", "arraywrite"] + (["frot"] if want_rot else []))
+            if k in ("rtranslate", "rscale") and f["subs"]:
+                k = "translate"
+            if k in ("translate", "rtranslate"):
+                v = [float(F(rng.randint(-64, 64), 8)) if exact else round(rng.uniform(-2, 2), 2) * s_ for _ in range(3)]
+                ops.append([k, [fhex(x) for x in v]])
+            elif k == "scale":
+                ops.append([k, [fhex(rng.choice([2.0, 0.5, -1.0, -2.0, 4.0, 0.25, 3.0])) for _ in range(3)]])
+            elif k == "rscale":
+                ops.append([k, fhex(rng.choice([2.0, 0.5, 4.0, 3.0]))])
+            elif k == "frot":
+                a1, a2 = rng.sample(["x", "y", "z"], 2)
+                ops.append([k, a1, a2, rng.choice([1, 3, -1, 2])])
+            else:
+                ops.append([k])
+        return dict(kind="state", scen=scen, field=f, ops=ops, rep=rep_)
+    if scen == "meshrot":
+        f = gen_field(rng, tier, exact=True, subs=rng.random() < 0.4, maxn=4, vcls="index")
+        a1, a2 = rng.sample(["x", "y", "z"], 2)
+        return dict(kind="state", scen=scen, field=f, rot=[a1, a2, rng.choice([1, 3, -1, 5])], rep=rep_)
+    f1 = gen_field(rng, tier, exact=True, subs=True, maxn=3)
+    f2 = gen_field(rng, tier, exact=True, subs=False, maxn=3, nv=f1["nv"])
+    # same mesh, other content
+    for k in ("p1", "p2", "n", "munit"):
+        f2[k] = f1[k]
+    f2["vals"] = [fhex(x) for x in gen_values(rng, len(f1["vals"]), rng.choice(["small", "full", "index"]))]
+    if scen == "repeat":
+        lo = [min(unhex(a), unhex(b)) for a, b in zip(f1["p1"], f1["p2"])]
+        hi = [max(unhex(a), unhex(b)) for a, b in zip(f1["p1"], f1["p2"])]
+        f2["subs"] = gen_subs(rng, lo, hi, f1["n"])
+    if scen == "stems":
+        f2["subs"] = [] if rng.random() < 0.5 else gen_subs(rng, [min(unhex(a), unhex(b)) for a, b in zip(f1["p1"], f1["p2"])],
+                                                            [max(unhex(a), unhex(b)) for a, b in zip(f1["p1"], f1["p2"])], f1["n"])
+    return dict(kind="state", scen=scen, field=f1, field2=f2, rep=rep_,
+                exts=rng.sample(["ovf", "omf", "ohf"], 2), wpath=rng.choice(["str", "Path"]))
+
+
 def gen_foreign(rng, tier, version=None, rep=None, maxn=None):
     version = version or rng.choice([1, 2])
     rep = rep or rng.choice(REPS)
@@ -673,7 +728,10 @@ def field_array(fc):
     if dt in ("complex0", "complex"):
         re_ = np.array([unhex(x) for x in fc["vals"]], dtype=np.float64)
         im_ = np.array([unhex(x) for x in fc["imag"]], dtype=np.float64)
-        return (re_ + 1j * im_).reshape(shape)
+        z = np.empty(len(re_), dtype=np.complex128)
+        z.real = re_          # keeps the sign of zeros
+        z.imag = im_
+        return z.reshape(shape)
     return np.array([unhex(x) for x in fc["vals"]], dtype=np.float64).reshape(shape)
 
 
@@ -878,6 +936,9 @@ def oracle_roundtrip(fc, rep, extend, o):
         if ext:
             ok = all(value_ok(rep, a, got[3 * t]) and got[3 * t + 1] == 0 and got[3 * t + 2] == 0
                      for t, a in enumerate(orig))
+        elif fc.get("dtype") == "float32" and rep == "txt":
+            # the text holds the shortest decimal that identifies the float32: same value at that precision
+            ok = len(orig) == len(got) and all(value_ok(rep, a, b) or f32(b) == a for a, b in zip(orig, got))
         else:
             ok = len(orig) == len(got) and all(value_ok(rep, a, b) for a, b in zip(orig, got))
         if not ok:
@@ -974,6 +1035,7 @@ def run_round(case):
     # fields whose mesh units differ per axis cannot be stored: rejection is the documented answer
     valid_rep = rep in REPS and len(set(fc.get("munits") or ["m"])) == 1
     untouched = snapshot(fld) == before
+    cplx = fc.get("dtype") in ("complex0", "complex")
     oracle = []
     obs = None
     if st == "ok":
@@ -982,15 +1044,21 @@ def run_round(case):
             oracle.append("invalid-write-accepted")
         else:
             oracle += oracle_roundtrip(fc, rep, extend, obs)
+            if fc.get("dtype") == "complex":
+                # non-zero imaginary parts cannot be stored: only a refusal keeps the data safe
+                tags.append(T_COMPLEX)
+                obs["imag_dropped"] = True
+                if ARMED:
+                    oracle.append("imaginary-part-dropped")
     else:
         obs = dict(rejected=out)
-        if valid_rep:
+        if valid_rep and not cplx:
             oracle.append("roundtrip-rejected")
     if not untouched:
         oracle.append("operand-modified")
     cleanup(path)
     coq = None
-    if rep in REPS and coq_representable(fc) and not (obs and "vals" in obs and has_nonfinite(obs["vals"]) and rep != "bin4"):
+    if rep in REPS and not cplx and not (fc.get("dtype") == "float32" and rep == "txt") and coq_representable(fc) and not (obs and "vals" in obs and has_nonfinite(obs["vals"]) and rep != "bin4"):
         inf_ok = rep == "bin4"
         try:
             gobs = "None" if st != "ok" else f"(Some {g_fobs(obs, inf_ok)})"
@@ -1208,6 +1276,155 @@ def run_sample(case):
     return rec("sample", case, obs, coq, oracle, f"sample|{case['file']}", a["count"])
 
 
+def post_state(fld, template):
+    """the field as it reports itself now, in the case format"""
+    m = fld.mesh
+    return dict(exact=False, p1=[fhex(x) for x in m.region.pmin], p2=[fhex(x) for x in m.region.pmax],
+                n=[int(k) for k in m.n], munit=str(m.region.units[0]),
+                subs=[[k, [fhex(x) for x in r.pmin], [fhex(x) for x in r.pmax]] for k, r in m.subregions.items()],
+                nv=int(fld.nvdim), vdims=None if fld.vdims is None else list(fld.vdims), unit=fld.unit,
+                vals=[fhex(x) for x in np.asarray(fld.array, dtype=np.float64).reshape(-1).tolist()],
+                vcls="state")
+
+
+def use_mesh(mesh):
+    _ = (mesh.cell, mesh.dV, len(mesh), mesh.index2point((0, 0, 0)), mesh.point2index(mesh.region.center))
+    next(iter(mesh))
+
+
+def write_read(fld, path, rep, wpath="str", rpath="str"):
+    fld.to_file(patharg(path, wpath), representation=rep)
+    return df.Field.from_file(patharg(path, rpath))
+
+
+def check_file(fc, rep, path):
+    try:
+        blob = open(path, "rb").read()
+        a = ovf_parse(blob)
+    except (OSError, OvfError):
+        return ["file-not-ovf"]
+    return oracle_written(fc, rep, False, a, blob.split(b"\n", 1)[0].decode("utf-8", errors="replace"))
+
+
+def run_state(case):
+    scen, rep = case["scen"], case["rep"]
+    oracle, tags, coq = [], [], None
+    obs = {}
+    d = tempfile.mkdtemp(prefix="st_", dir=TMP)
+    if scen in ("inplace", "meshrot"):
+        fc = case["field"]
+
+        def go():
+            if scen == "meshrot":
+                mesh = make_mesh(fc)
+                use_mesh(mesh)
+                a1, a2, k = case["rot"]
+                mesh.rotate90(a1, a2, k=k, inplace=True)
+                arr = np.array([unhex(x) for x in fc["vals"]]).reshape(*[int(q) for q in mesh.n], fc["nv"])
+                fld = df.Field(mesh, nvdim=fc["nv"], value=arr, vdims=fc["vdims"], unit=fc["unit"])
+            else:
+                fld = make_field(fc)
+                use_mesh(fld.mesh)
+                _ = fld.norm if fc["nv"] > 1 else abs(fld)
+                first = write_read(fld, os.path.join(d, "first.ovf"), rep)      # the operation itself, before
+                obs["first"] = oracle_roundtrip(fc, rep, False, observe_field(first))
+                for op in case["ops"]:
+                    if op[0] == "translate":
+                        fld.mesh.translate([unhex(x) for x in op[1]], inplace=True)
+                    elif op[0] == "scale":
+                        fld.mesh.scale([unhex(x) for x in op[1]], inplace=True)
+                    elif op[0] == "rtranslate":
+                        fld.mesh.region.translate([unhex(x) for x in op[1]], inplace=True)
+                    elif op[0] == "rscale":
+                        fld.mesh.region.scale(unhex(op[1]), inplace=True)
+                    elif op[0] == "frot":
+                        fld.rotate90(op[1], op[2], k=op[3], inplace=True)
+                    elif op[0] == "arraywrite":
+                        fld.array[...] *= 2.0
+                        fld.array[0, 0, 0, 0] = 7.5
+            fc2 = post_state(fld, fc)
+            before = snapshot(fld)
+            path = os.path.join(d, "first.ovf")       # same name as the earlier save
+            out = write_read(fld, path, rep)
+            return fc2, observe_field(out), snapshot(fld) == before, check_file(fc2, rep, path)
+        st, out = attempt(go)
+        if st != "ok":
+            oracle.append("roundtrip-rejected")
+            obs["rejected"] = out
+        else:
+            fc2, o, same, fbad = out
+            oracle += obs.pop("first", [])
+            oracle += oracle_roundtrip(fc2, rep, False, o) + fbad
+            if not same:
+                oracle.append("operand-modified")
+            obs.update(post=dict(p1=fc2["p1"], p2=fc2["p2"], n=fc2["n"]), back=dict(pmin=o["pmin"], pmax=o["pmax"], n=o["n"]))
+            if coq_representable(fc2) and not has_nonfinite(o["vals"]):
+                try:
+                    coq = f"CRound {g_fin(fc2)} {g_rep(rep)} false (Some {g_fobs(o, rep == 'bin4')})"
+                except ValueError:
+                    coq = None
+        key = f"state|{scen}|{rep}|{'+'.join(op[0] for op in case.get('ops', []))}|{bool(fc['subs'])}|{st}"
+    else:
+        f1, f2 = case["field"], case["field2"]
+        wp = case.get("wpath", "str")
+
+        def go():
+            A, B = make_field(f1), make_field(f2)
+            sa, sb = snapshot(A), snapshot(B)
+            bad = []
+            if scen == "repeat":
+                P, Q = os.path.join(d, "a.ovf"), os.path.join(d, "b.ovf")
+                ra = write_read(A, P, rep, wp)
+                bytes1 = open(P, "rb").read()
+                rb = write_read(B, Q, rep, wp)
+                bad += oracle_roundtrip(f1, rep, False, observe_field(ra)) + oracle_roundtrip(f2, rep, False, observe_field(rb))
+                A.to_file(patharg(P, wp), representation=rep)
+                if open(P, "rb").read() != bytes1:
+                    bad.append("repeated-write-differs")
+                r1, r2 = df.Field.from_file(P), df.Field.from_file(P)
+                if observe_field(r1) != observe_field(r2) or observe_field(r1) != observe_field(ra):
+                    bad.append("repeated-read-differs")
+                rb2 = write_read(B, P, rep, wp)          # overwrite the same name with other content
+                bad += oracle_roundtrip(f2, rep, False, observe_field(rb2)) + check_file(f2, rep, P)
+            elif scen == "stems":
+                e1, e2 = case["exts"]
+                P, Q = os.path.join(d, "same." + e1), os.path.join(d, "same." + e2)
+                A.to_file(patharg(P, wp), representation=rep)
+                B.to_file(patharg(Q, wp), representation=rep)
+                bad += oracle_roundtrip(f1, rep, False, observe_field(df.Field.from_file(P)))
+                bad += oracle_roundtrip(f2, rep, False, observe_field(df.Field.from_file(Q)))
+                obs["files"] = sorted(os.listdir(d))
+            else:  # stale
+                P = os.path.join(d, "t.ovf")
+                A.to_file(patharg(P, wp), representation=rep)
+                B.to_file(patharg(P, wp), representation=rep)
+                o = observe_field(df.Field.from_file(P))
+                rest = oracle_roundtrip(f2, rep, False, o)
+                obs["stale_sidecar_read"] = "subregions" in rest
+                if "subregions" in rest:
+                    tags.append(T_STALE)
+                    rest = [c for c in rest if c != "subregions"] + (["stale-sidecar"] if ARMED else [])
+                bad += rest
+            if snapshot(A) != sa or snapshot(B) != sb:
+                bad.append("operand-modified")
+            return bad
+        st, out = attempt(go)
+        if st != "ok":
+            if scen == "stale":
+                tags.append(T_STALE)
+                obs["stale_sidecar_read"] = "rejected"
+                if ARMED:
+                    oracle.append("stale-sidecar")
+            else:
+                oracle.append("roundtrip-rejected")
+            obs["rejected"] = out
+        else:
+            oracle += out
+        key = f"state|{scen}|{rep}|{bool(f2['subs'])}|{st}"
+    shutil.rmtree(d, ignore_errors=True)
+    return rec("state", case, obs, coq, oracle, key, 50 + len(case["field"]["vals"]), tags)
+
+
 def run_case(case):
     with warnings.catch_warnings():
         warnings.simplefilter("ignore")
@@ -1221,6 +1438,8 @@ def run_case(case):
                 return run_read(case)
             if k == "sample":
                 return run_sample(case)
+            if k == "state":
+                return run_state(case)
     raise ValueError(case["kind"])
 
 
